@@ -146,6 +146,17 @@ def hook_packages(
     # ....................{ HOOKS                          }....................
     # With a submodule-specific thread-safe reentrant lock...
     with claw_lock:
+        # ....................{ CONFLICTS                  }....................
+        # If any of these packages was previously hooked under a conflicting
+        # beartype configuration, raise an exception *BEFORE* modifying either
+        # the blacklist or whitelist below. Doing so guarantees that a failing
+        # call leaves both registries exactly as they were.
+        _die_if_packages_conf_conflict(
+            claw_coverage=claw_coverage,
+            conf=conf,
+            package_names=package_names,
+        )
+
         # ....................{ BLACKLIST                  }....................
         # If blacklisting one or more packages from type-checking, do so.
         # print(f'Blacklisting packages: {repr(conf.claw_skip_package_names)}')
@@ -173,6 +184,93 @@ def hook_packages(
         #   hook subsequently calls the companion get_package_conf_or_none()
         #   function, which accesses that trie.
         add_beartype_path_hook()
+
+# ....................{ PRIVATE ~ raisers                  }....................
+def _die_if_packages_conf_conflict(
+    claw_coverage: BeartypeClawCoverage,
+    conf: BeartypeConf,
+    package_names: Optional[IterableStrs],
+) -> None:
+    '''
+    Raise an exception if one or more of the passed packages (or *all* packages
+    if this coverage is :attr:`.BeartypeClawCoverage.PACKAGES_ALL`) were
+    previously registered under a beartype configuration differing from the
+    passed configuration, *without* modifying any global registry.
+
+    Caveats
+    -------
+    **This function is only safely callable in a thread-safe manner from within
+    a** ``with claw_lock:`` **context manager.**
+
+    Parameters
+    ----------
+    claw_coverage : BeartypeClawCoverage
+        **Import hook coverage** (i.e., competing package scope over which to
+        apply the path hook).
+    conf : BeartypeConf
+        Beartype configuration to be registered.
+    package_names : Optional[Iterable[str]]
+        Iterable of the fully-qualified names of one or more packages to be
+        registered if this coverage is *not*
+        :attr:`.BeartypeClawCoverage.PACKAGES_ALL` *or* ignored otherwise.
+
+    Raises
+    ------
+    BeartypeClawHookException
+        If one or more of these packages were previously registered under a
+        conflicting beartype configuration.
+    '''
+
+    # Avoid circular import dependencies.
+    from beartype.claw._clawstate import claw_state
+
+    # If type-checking *ALL* packages...
+    if claw_coverage is BeartypeClawCoverage.PACKAGES_ALL:
+        # Beartype configuration currently associated with *ALL* packages by a
+        # previous call to this function if any *OR* "None" otherwise.
+        conf_curr = claw_state.packages_trie_whitelist.conf_if_hooked
+
+        # If that call associated all packages with a different configuration,
+        # defer to the existing raiser producing a readable exception.
+        if conf_curr is not None and conf_curr != conf:
+            _whitelist_packages_all(conf)
+        # Else, *NO* such conflict exists.
+    # Else, only a subset of packages are being type-checked. In this case...
+    else:
+        # For the fully-qualified name of each package to be registered...
+        for package_name in package_names:  # type: ignore[union-attr]
+            # Current subtrie of the global package trie describing the
+            # currently iterated basename of this package, initialized to the
+            # global trie configuring all top-level packages.
+            subpackages_trie_whitelist: Optional[PackagesTrieWhitelist] = (
+                claw_state.packages_trie_whitelist)
+
+            # For each unqualified basename comprising this name, descend into
+            # the subtrie describing that basename if any *WITHOUT* creating
+            # that subtrie if that subtrie does not yet exist.
+            for package_basename in package_name.split('.'):
+                subpackages_trie_whitelist = subpackages_trie_whitelist.get(  # type: ignore[union-attr]
+                    package_basename)
+
+                # If this (sub)package has yet to be registered, no conflict
+                # exists. Halt descending.
+                if subpackages_trie_whitelist is None:
+                    break
+            # If this package has already been registered...
+            else:
+                # Beartype configuration currently associated with this package
+                # by a previous call to this function if any *OR* "None".
+                conf_curr = subpackages_trie_whitelist.conf_if_hooked  # type: ignore[union-attr]
+
+                # If that call associated this package with a different
+                # configuration, defer to the existing raiser producing a
+                # readable exception. Since that raiser raises this exception
+                # *BEFORE* modifying this preexisting subtrie, doing so
+                # preserves the global package trie as is.
+                if conf_curr is not None and conf_curr != conf:
+                    _whitelist_packages_some(
+                        package_names=(package_name,), conf=conf)
+                # Else, *NO* such conflict exists.
 
 # ....................{ PRIVATE ~ blacklisters             }....................
 #FIXME: Docstring us up, please.
